@@ -131,6 +131,32 @@ Theorem C17_check_sound :
 Proof. exact hcase_check_sound. Qed.
 Print Assumptions C17_check_sound.
 
+(* TrackRequest's index: the RelayStateFunc's value when one is installed and
+   returns a non-empty string, the random draw otherwise ("" means "use the
+   random index"), hence never empty; and with non-empty draws every flow of a
+   reachable state has its own non-empty index, so C17_interleaving needs no
+   hypothesis on it. *)
+Theorem C17_track_index :
+  (forall c rnd, nonempty rnd = true -> nonempty (track_index c rnd) = true)
+  /\ (forall s rnd, s <> "" -> track_index (Some s) rnd = s)
+  /\ (forall rnd, track_index (Some "") rnd = rnd /\ track_index None rnd = rnd).
+Proof. split; [exact track_index_nonempty | split; [exact track_index_custom | exact track_index_fallback]]. Qed.
+Print Assumptions C17_track_index.
+
+Theorem C17_interleaving_nonempty_draws :
+  forall cfg t0 hist r j h f,
+    let m := run (init cfg t0) hist in
+    fresh_draws hist -> nonempty_draws hist -> codec_wf (m_tcodec cfg) ->
+    In f (mw_flows m) ->
+    honest_jar m j -> In (m_prefix cfg +++ fl_index f, fl_cookie f) j ->
+    flow_live cfg (mw_clock m) f = true ->
+    r_ok r = true -> response_fresh cfg (mw_clock m) r = true -> r_irt r = fl_req_id f ->
+    let rp := snd (step m (Deliver r j (fl_index f) h)) in
+    rp_status rp = 302 /\ rp_location rp = LUrl (fl_uri f) /\ sets_session rp
+    /\ In (clear_cookie cfg (fl_index f)) (rp_cookies rp).
+Proof. exact interleaving_nonempty_draws. Qed.
+Print Assumptions C17_interleaving_nonempty_draws.
+
 (* ====================================================================== *)
 (* C04, last mechanism: "the middleware supplies the outstanding request IDs
    from authenticated tracking cookies" — the tie between this state machine
